@@ -80,6 +80,8 @@ pub const TEMPLATES: &[&str] = &[
     "warn-spread",
     "warn-deprecated-cross-file",
     "warn-doc-cross-file",
+    "warn-wide-text",
+    "warn-twins",
     "err-syntax",
     "err-attribute",
     "err-unresolved",
@@ -91,6 +93,7 @@ pub const TEMPLATES: &[&str] = &[
     "err-redefinition",
     "err-redefinition-cross-file",
     "err-rule",
+    "err-wide-text",
 ];
 
 pub fn by_class(want_clean: bool, want_warn: bool, want_err: bool) -> Vec<&'static str> {
@@ -182,6 +185,35 @@ pub fn instantiate(template: &'static str, rng: &mut Rng) -> Program {
             p.class = Class::WarnOnly(3);
             p.lints = vec!["BrokenDocLink", "IncorrectDocComment", "IncorrectDocComment"];
         }
+        "warn-wide-text" => {
+            // text of more than one byte per character in front of the reported place, on the same line: columns
+            // count characters, not bytes
+            let lead = *rng.pick(&["这个结构已经被弃用了，请改用", "Voir plutôt l'élément dépréciée à côté →", "😀😀😀 см. также", "ｆｕｌｌｗｉｄｔｈ　ｔｅｘｔ"]);
+            p.files.push(f(
+                "wide.slice",
+                format!("module Wide{u}\n\n/// {lead} {{@link Nope}}。\nstruct Doc {{ x: bool }}\n\n[deprecated(\"{lead}\")] struct Old {{}}\n\nstruct User {{\n    /* {lead} */ a: Old\n}}\n\n{}", filler(rng, "Wide", fill)),
+            ));
+            p.class = Class::WarnOnly(2);
+            p.lints = vec!["BrokenDocLink", "Deprecated"];
+        }
+        "warn-twins" => {
+            // two files of the same shape: the same lint with the same text at the same row and column in each
+            let kind = rng.below(3);
+            for (name, module) in [("twin_a.slice", format!("Ta{u}")), ("twin_b.slice", format!("Tb{u}"))] {
+                let body = match kind {
+                    0 => "/// See {@link Invoice} for details.\nstruct Order { id: int32 }\n".to_owned(),
+                    1 => "[deprecated] struct Old {}\nstruct User { a: Old }\n".to_owned(),
+                    _ => "interface I {\n    /// @param nope: no such parameter\n    op(a: int32)\n}\n".to_owned(),
+                };
+                p.files.push(f(name, format!("module {module}\n\n{body}")));
+            }
+            p.class = Class::WarnOnly(2);
+            p.lints = match kind {
+                0 => vec!["BrokenDocLink", "BrokenDocLink"],
+                1 => vec!["Deprecated", "Deprecated"],
+                _ => vec!["IncorrectDocComment", "IncorrectDocComment"],
+            };
+        }
         "warn-spread" => {
             // four warnings of the same kind spread over three files: an iteration-order dependence has something
             // to reorder
@@ -271,6 +303,15 @@ pub fn instantiate(template: &'static str, rng: &mut Rng) -> Program {
             p.files.push(f("bad.slice", format!("module Bad{u}\n[foo]\nstruct S {{ a: int32 }}\n{}", filler(rng, "Bad", fill))));
             p.class = Class::Error;
             p.codes = vec!["E024"];
+        }
+        "err-wide-text" => {
+            let lead = *rng.pick(&["这个结构已经被弃用了，请改用", "élément dépréciée à côté →", "😀😀😀 см. также"]);
+            p.files.push(f(
+                "widerr.slice",
+                format!("module WideErr{u}\n\n[cs::attribute(\"{lead}\")] struct S {{ /* {lead} */ a: NoSuchType{u} }}\n\n{}", filler(rng, "WideErr", fill)),
+            ));
+            p.class = Class::Error;
+            p.codes = vec!["E033"];
         }
         "err-unresolved" => {
             p.files.push(f("good.slice", format!("module Good{u}\nstruct G {{ a: int32 }}\n")));
@@ -414,9 +455,9 @@ pub fn random_program(rng: &mut Rng, inject: u8) -> Program {
         if doc.is_empty() && rng.chance(1, 4) && !ents.is_empty() {
             let j = rng.usize_below(ents.len());
             if rng.chance(1, 5) {
-                doc = format!("/// Relates to {{@link {}::Nowhere{i}}}.\n", modules[ents[j].module]);
+                doc = format!("/// {} {{@link {}::Nowhere{i}}}.\n", *rng.pick(&["Relates to", "关联到这个东西", "Liée à l'élément", "😀"]), modules[ents[j].module]);
             } else {
-                doc = format!("/// Relates to {{@link {}::{}}}.\n", modules[ents[j].module], ents[j].name);
+                doc = format!("/// {} {{@link {}::{}}}.\n", *rng.pick(&["Relates to", "关联到这个东西", "Liée à l'élément", "😀"]), modules[ents[j].module], ents[j].name);
             }
         }
         let attr = if deprecated {
